@@ -243,6 +243,7 @@ $GEN{$NG(k int)}{int}{
 	case 1:
 		tr.Ev(1)
 	}
+	$RET
 }
 
 $GEN{$NH(k int)}{int}{
